@@ -129,6 +129,7 @@ type Mapper struct {
 	ErrOnCall  int // 1-based ordinal of the call that fails (0 = never); counted over the session
 	BadOnCall  int // 1-based ordinal of the call that returns a wrong column count
 	BadDelta   int // +1 or -1
+	OnFail     func() // called (inside the lookup) just before a scripted failure is returned
 	tr         *sim.Trace
 	totalCalls int
 }
@@ -167,6 +168,9 @@ func (m *Mapper) MysqlTable(name gobinlog.MysqlTableName) (gobinlog.MysqlTable, 
 	if m.ErrOnCall != 0 && m.totalCalls == m.ErrOnCall {
 		call.Result = "error"
 		m.Calls = append(m.Calls, call)
+		if m.OnFail != nil {
+			m.OnFail()
+		}
 		return nil, ErrMapper
 	}
 	mt := &mTable{name: name}
@@ -176,6 +180,9 @@ func (m *Mapper) MysqlTable(name gobinlog.MysqlTableName) (gobinlog.MysqlTable, 
 	call.Result = "ok"
 	if m.BadOnCall != 0 && m.totalCalls == m.BadOnCall {
 		call.Result = "wrong-count"
+		if m.OnFail != nil {
+			m.OnFail()
+		}
 		if m.BadDelta < 0 && len(mt.cols) > 0 {
 			mt.cols = mt.cols[:len(mt.cols)-1]
 		} else {
